@@ -34,10 +34,11 @@ def tryLoc : Nat → P Loc
 
 end LocParse
 
-/-- `tryLocation(s)`: note that the parser is *not* wrapped in `pars.Exact`, so a location
-followed by arbitrary bytes is accepted. -/
+/-- `tryLocation(s)`: `pars.Exact(parser)` on a fresh state (`Seq(Head, parser, End).Map(Child(1))`;
+`Head` holds at the start, `End` = no byte left), so only a string that is *entirely* a point /
+range / complement location is accepted (repair 03b944a of finding F9). -/
 def tryLocation (input : Bytes) : Except Err Loc :=
-  ((LocParse.tryLoc (input.length + 2)).run' ⟨input, []⟩).1
+  ((ModParse.exact (LocParse.tryLoc (input.length + 2))).run' ⟨input, []⟩).1
 
 /-- what `AsLocator` builds -/
 inductive LocatorDesc where
